@@ -630,7 +630,7 @@ theorem fr_dataFree (a : Alloc) (st : TxAlloc) (id : Nat) (hok : AOK a) (hu : In
 /-- additional allocator facts that hold as long as the overflow area is not used -/
 structure AOK2 (a : Alloc) : Prop where
   noOv : a.maxPages = 0 ∨ a.mta.endMarker ≤ a.maxPages
-  ends : a.data.endMarker ≤ a.mta.endMarker
+  ends : a.data.endMarker ≤ a.mta.endMarker ∨ a.data.endMarker ≤ 2
   mGe2 : ∀ x ∈ a.mta.free, 2 ≤ x
 
 theorem a2_regions (a : Alloc) (st : TxAlloc) (n : Nat) (a' : Alloc) (st' : TxAlloc) (ids : List Nat)
@@ -688,6 +688,7 @@ theorem a2_continuous (a : Alloc) (st : TxAlloc) (n : Nat) (a' : Alloc) (st' : T
         have := h2.noOv
         have := h2.ends
         have := hok.dEnd
+        have := hok.limit
         refine ⟨⟨?_, ?_, ?_⟩, ?_⟩
         all_goals try simp only [bumpMetaEnd_data, bumpMetaEnd_mta_free, bumpMetaEnd_mta_end, bumpMetaEnd_maxPages]
         · omega
@@ -820,7 +821,8 @@ def FileSt.internal (f : FileSt) : List Nat := f.walMap.map (·.2) ++ f.walPages
 /-- invariant of a committed state; `live` are the data pages the client owns -/
 structure EngInv (f : FileSt) (live : List Nat) : Prop where
   wf : WF f.alloc
-  ends : f.alloc.data.endMarker ≤ f.alloc.mta.endMarker
+  -- second alternative: a file created without a meta area (`initMeta = 0`) before its first allocation
+  ends : f.alloc.data.endMarker ≤ f.alloc.mta.endMarker ∨ f.alloc.data.endMarker ≤ 2
   keys : AscKeys f.walMap
   liveOk : ∀ id ∈ live, 2 ≤ id ∧ id < f.alloc.data.endMarker ∧ InUse f.alloc id
   mapKey : ∀ k w, Assoc.get? f.walMap k = some w → k ∈ live
@@ -887,7 +889,7 @@ structure TxInv (f0 : FileSt) (live : List Nat) (f : FileSt) (tx : TxSt) (cur : 
 
 theorem eng_aok (f : FileSt) (live : List Nat) (h : EngInv f live) : AOK f.alloc :=
   ⟨h.wf.ascData, h.wf.ascMeta, h.wf.dataRange,
-    fun x hx => ⟨fun hd => h.wf.disj x hd hx, (h.wf.metaRange x hx).2⟩, Or.inl h.ends, h.wf.dataEnd, h.wf.limit⟩
+    fun x hx => ⟨fun hd => h.wf.disj x hd hx, (h.wf.metaRange x hx).2⟩, h.ends, h.wf.dataEnd, h.wf.limit⟩
 
 theorem eng_val (f : FileSt) (live : List Nat) (h : EngInv f live) (k w : Nat)
     (hk : Assoc.get? f.walMap k = some w) : 2 ≤ w ∧ InUse f.alloc w ∧ w ∉ live := by
